@@ -366,23 +366,23 @@ func (r *run) exec() (cerr error, timedOut bool, requests int) {
 		case strings.HasPrefix(kind, "status-"):
 			f := rm.NewFault("status")
 			fmt.Sscanf(kind, "status-%d", &f.Status)
-			f.AtSeq = k
+			f.AtSeq = k + e.WarmRequests
 			if f.Status == 401 {
 				f.Challenge = `Basic realm="injected"`
 			}
 			e.M.AddFault(f)
 		case kind == "reset-before":
 			f := rm.NewFault("reset-before")
-			f.AtSeq = k
+			f.AtSeq = k + e.WarmRequests
 			e.M.AddFault(f)
 		case kind == "truncate":
 			f := rm.NewFault("truncate")
-			f.AtSeq = k
+			f.AtSeq = k + e.WarmRequests
 			f.At = 1
 			e.M.AddFault(f)
 		case kind == "stall-cancel":
 			f := rm.NewFault("stall")
-			f.AtSeq = k
+			f.AtSeq = k + e.WarmRequests
 			f.At = 0
 			e.M.AddFault(f)
 		}
@@ -420,7 +420,7 @@ func (r *run) exec() (cerr error, timedOut bool, requests int) {
 		if e.Tgt.Kind == "layout" && e.Src.Kind == "reg" {
 			r.layoutState(fmt.Sprintf("at request #%d", x.Seq))
 		}
-		if x.Seq == r.k {
+		if x.Seq == r.k+e.WarmRequests {
 			switch r.kind {
 			case "cancel":
 				once.Do(cancel)
@@ -436,7 +436,7 @@ func (r *run) exec() (cerr error, timedOut bool, requests int) {
 	}
 	cerr, timedOut = e.Copy(ctx)
 	e.M.OnArrive = nil
-	requests = e.M.Requests()
+	requests = e.M.Requests() - e.WarmRequests
 	if timedOut {
 		return
 	}
@@ -473,6 +473,7 @@ func check(c *Case, ev *evid.Collector) *evid.Violation {
 	if c.AllPosMax > 0 {
 		classes = append(classes, "template:contention")
 	}
+	classes = append(classes, base.ClientClasses()...)
 	for _, l := range g.Labels {
 		classes = append(classes, "graph:"+l)
 	}
@@ -528,7 +529,7 @@ func check(c *Case, ev *evid.Collector) *evid.Violation {
 			// non-trivial: the fault hit after something was written and the copy did not complete
 			wrote := false
 			for _, x := range e.M.Entries() {
-				if x.Seq < k && x.Applied && x.Mutating() {
+				if x.Seq >= e.WarmRequests && x.Seq < k+e.WarmRequests && x.Applied && x.Mutating() {
 					wrote = true
 				}
 			}
